@@ -646,8 +646,12 @@ class Verifier:
                 return MTup(a.items + b.items)
             if isinstance(a, MList) and isinstance(b, MList):
                 return MList(a.items + b.items)
-            la = isinstance(a, MList) or isinstance(ta, SeqT)
-            lb = isinstance(b, MList) or isinstance(tb, SeqT)
+            la = isinstance(a, (MList, MTup)) or isinstance(ta, SeqT)
+            lb = isinstance(b, (MList, MTup)) or isinstance(tb, SeqT)
+            if isinstance(a, MTup) and isinstance(ta if ta else tb, SeqT):
+                a = MList(a.items)
+            if isinstance(b, MTup) and isinstance(ta if ta else tb, SeqT):
+                b = MList(b.items)
             if la and lb:
                 u = unify_types(type_of(a), type_of(b))
                 if u is None:
